@@ -130,7 +130,15 @@ def setup(ctx, job):
             config.set("env", "jpl", "dynamic_frames", True)
             ctx.count("config:dynamic-frames")
         else:
-            jpl.create_frames()
+            try:
+                jpl.create_frames()
+            except Exception as exc:
+                # the statement quantifies over "with and without physical-constant (PCK) files configured": frames that
+                # cannot be created in a configuration are an observation about the library, not a harness problem
+                ctx.violation(f"C18/create-frames-raises-{job['jpl']}-configuration", {"configuration": job["jpl"], "exc": repr(exc)},
+                              f"jpl.create_frames() raised {exc!r} with configuration '{job['jpl']}'")
+                st["broken"] = True
+                return st
         ctx.count("config:" + job["jpl"])
         st["created"] = job["create"] != "dynamic"
         st["parent"] = {t: c for (c, t) in K.segs}
@@ -209,6 +217,8 @@ def _time_suspect(K, date, target, origin, got, tp):
 
 
 def run_case(ctx, job, idx, rng, st):
+    if st.get("broken"):
+        return
     if job["mode"] == "pairs":
         return run_pairs(ctx, job, idx, rng, st)
     return run_sunmoon(ctx, job, idx, rng, st)
